@@ -15,3 +15,7 @@ let desc = { fresh = ap_fresh; decode = ap_decode_into; serialize = Some ap_seri
   next = (fun _ _ -> "ip4"); render_panics = ap_render_panics; of_spec; junk_len = 64 }
 let run id ops out = Lsmallutil.run_with_decf desc ap_decode_fn id ops out
 let registered = Registry.register "Lapsp" run
+let coq_layer (l : apsp) = Printf.sprintf "(mkAp %s %s %s %s %s %s %s %s %s %s %s %s)" (coq_zlist l.ap_contents) (coq_zlist l.ap_payload) (coq_z l.ap_nh) (coq_z l.ap_hel)
+  (coq_z l.ap_co) (coq_z l.ap_sdv) (coq_z l.ap_spi) (coq_z l.ap_iv) (coq_z l.ap_tok) (coq_z l.ap_vk) (coq_z l.ap_src) (coq_z l.ap_dst)
+let registered_coq = Registry.register_coq "Lapsp" ("From GP Require Import Base LapspModel.\n",
+  Lsmallutil.to_coq_generic { Lsmallutil.cd = desc; coq_layer; g_dec = "ap_decode_into"; g_fresh = "ap_fresh"; g_ser = "ap_serialize"; g_rp = "ap_render_panics" })
